@@ -34,18 +34,18 @@ Qed.
 (* ---- the pushed session: scenarios (every profile x response type x verdict of the policy) ---- *)
 Definition own_client : client :=
   mkClient 1 false [GAuthorizationCode; GRefreshToken; GImplicit] ["code"; "code id_token"; "id_token"; "token"; "code token"]
-           ["https://c1.example/cb"] "openid email" CibaNone false false false false false false false 0 false.
+           ["https://c1.example/cb"] "openid email" CibaNone false false false false false false false 0 false None.
 Definition own_opts : list opt :=
   [WithScopes [ScExact "openid"; ScExact "email"]; WithAuthorizationCodeGrant; WithImplicitGrant; WithRefreshTokenGrant 600%Z;
    WithPAR 60%Z; WithTokenLifetime 300%Z].
 Definition own_params (rt : string) : params :=
-  mkParams 0 "https://c1.example/cb" "" rt "openid email" "st" "n-1" PkEmpty "" 0 "" 0 "" [].
+  mkParams 0 "https://c1.example/cb" "" rt "openid email" "st" "n-1" PkEmpty "" 0 "" 0 "" [] None.
 Definition own_scn (prof : profile) (rt : string) (pol : pol_reply) : racescn :=
   mkRaceScn prof own_opts [] [own_client]
     [OpPar (mkPReq rc_cred (own_params rt) no_bind)]
     (OpAuthorize (mkAReq 1 ((own_params rt) <| p_request_uri := mint 0%nat KParUri |>) true pol))
     KAGet KASave.
-Definition own_ok : pol_reply := PolSuccess "alice" "openid email" [].
+Definition own_ok : pol_reply := PolSuccess "alice" "openid email" [] [].
 Definition own_pols : list pol_reply := [own_ok; PolInProgress; PolFail].
 (* the (profile, response type) pairs the profiles admit *)
 Definition own_cells : list (profile * string) :=
